@@ -764,6 +764,13 @@ func corpusScenarios() []scenario {
 		{Name: "member-excluded-by-conflict-entry-of-member", Archs: both(), World: []string{"a"}, Pkgs: []pspec{
 			{Name: "a", Version: "1.0-r0", Archs: both(), Deps: []string{"b", "c"}}, {Name: "b", Version: "1.0-r0", Archs: both()},
 			{Name: "c", Version: "1.0-r0", Archs: both(), Deps: []string{"!b"}}}},
+		// C09-F7: p provides the name of member q at another version; the exact entry q=2.0-r0 disqualifies p, whose own entry then fails
+		{Name: "entry-disqualifies-member-providing-its-name", Archs: both(), World: []string{"a", "b"}, Pkgs: []pspec{
+			{Name: "a", Version: "1.0-r0", Archs: both(), Deps: []string{"q"}}, {Name: "b", Version: "1.0-r0", Archs: both(), Deps: []string{"p"}},
+			{Name: "p", Version: "1.0-r0", Archs: both(), Provides: []string{"q=1.0"}}, {Name: "q", Version: "2.0-r0", Archs: both()}}},
+		{Name: "entry-disqualifies-member-providing-its-name-unversioned", Archs: both(), World: []string{"a", "b"}, Pkgs: []pspec{
+			{Name: "a", Version: "1.0-r0", Archs: both(), Deps: []string{"q"}}, {Name: "b", Version: "1.0-r0", Archs: both(), Deps: []string{"p"}},
+			{Name: "p", Version: "1.0-r0", Archs: both(), Provides: []string{"q"}}, {Name: "q", Version: "2.0-r0", Archs: both()}}},
 		{Name: "dependency-missing-on-one-arch", Archs: both(), World: []string{"a"}, Pkgs: []pspec{
 			{Name: "a", Version: "1.0-r0", Archs: both(), Deps: []string{"b"}}, {Name: "b", Version: "1.0-r0", Archs: []string{X}}}},
 	}
@@ -827,6 +834,11 @@ func genScenario(r *gal.Rand, i int) scenario {
 					p.Provides = append(p.Provides, pv)
 				} else if r.Chance(1, 10) {
 					p.Provides = append(p.Provides, vn+"="+gal.Pick(r, []string{"1.0", "2.0", "3.0"}))
+				}
+			}
+			if r.Chance(1, 10) { // a conflict entry against another name (C09-F6 when both end up in the set)
+				if cn := gal.Pick(r, names); cn != nm {
+					p.Deps = append(p.Deps, "!"+cn)
 				}
 			}
 			if r.Chance(1, 12) { // provides another real name at some version
